@@ -425,10 +425,15 @@ func CheckC07(p *Pkg, e *Env, r *res.Result) {
 			kind := classifySchemaErr(errs[0])
 			// narrow classification: does the value validate once nil slices / maps are
 			// replaced by empty ones? then the only cause is a nil collection encoded as null
-			if nb, nerr := safeMarshal(NormalizeNil(v).Interface()); nerr == nil {
-				if nt, derr := refmodel.DecodeJSON(nb); derr == nil && len(va.Validate(tg.Schema, nt)) == 0 {
-					kind = "nil-collection-encoded-as-null"
+			if k := NilCollectionKind(v, func(nv reflect.Value) bool {
+				nb, nerr := safeMarshal(nv.Interface())
+				if nerr != nil {
+					return false
 				}
+				nt, derr := refmodel.DecodeJSON(nb)
+				return derr == nil && len(va.Validate(tg.Schema, nt)) == 0
+			}); k != "" {
+				kind = k
 			}
 			fail(kind, "does not validate: "+strings.Join(errs, "; "))
 			return
@@ -507,7 +512,7 @@ func checkC07Responses(p *Pkg, e *Env, r *res.Result) {
 		tg := targets[rapid.IntRange(0, len(targets)-1).Draw(t, "target")]
 		v, raw, g := genResponse(t, p, tg.info, tg.docs)
 		in.Respond = func(c *Call) reflect.Value { return v }
-		req := httptest.NewRequest(tg.op.Method, "http://h.example"+p.BasePath+concretePath(tg.op.Template), nil)
+		req := httptest.NewRequest(tg.op.Method, "http://h.example"+escapeForURL(p.BasePath+concretePath(tg.op.Template)), nil)
 		in.Reset()
 		rec, pan := in.Serve(req)
 		r.Evaluations++
@@ -646,7 +651,7 @@ func CheckC08(p *Pkg, e *Env, r *res.Result) {
 				bodyReader = BodyOfUnknownLength(text)
 				r.Label("http:body-of-unknown-length")
 			}
-			req := httptest.NewRequest(tg.Op.Method, "http://h.example"+p.BasePath+concretePath(tg.Op.Template), bodyReader)
+			req := httptest.NewRequest(tg.Op.Method, "http://h.example"+escapeForURL(p.BasePath+concretePath(tg.Op.Template)), bodyReader)
 			req.Header.Set("Content-Type", "application/json")
 			in.Reset()
 			_, pan := in.Serve(req)
@@ -813,7 +818,25 @@ func stripUndeclared(d *specgen.Doc, s *specgen.Schema, v any) any {
 
 // NormalizeNil returns a deep copy of v in which nil slices and maps (other than
 // byte slices) are replaced by empty ones.
-func NormalizeNil(v reflect.Value) reflect.Value {
+func NormalizeNil(v reflect.Value) reflect.Value { return normalizeNil(v, false, false) }
+
+// NilCollectionKind tells whether a value that does not validate does so only because of
+// nil slices / maps written as null, and where they stand: "collection" = the whole value,
+// an element of an array or a map value (nothing normalises those: C07-F4); "property" =
+// a property of an object (the generated MarshalJSON turns those into [] / {}).
+func NilCollectionKind(v reflect.Value, validates func(reflect.Value) bool) string {
+	if validates(normalizeNil(v, false, true)) {
+		return "nil-collection-encoded-as-null"
+	}
+	if validates(normalizeNil(v, false, false)) {
+		return "nil-property-encoded-as-null"
+	}
+	return ""
+}
+
+// normalizeNil: a deep copy with nil slices / maps replaced by empty ones; with keepFields
+// those standing directly in a struct field (an object property, wrapped or not) stay nil.
+func normalizeNil(v reflect.Value, atField, keepFields bool) reflect.Value {
 	out := reflect.New(v.Type()).Elem()
 	switch v.Kind() {
 	case reflect.Struct:
@@ -823,26 +846,30 @@ func NormalizeNil(v reflect.Value) reflect.Value {
 		}
 		for i := 0; i < v.NumField(); i++ {
 			if v.Type().Field(i).IsExported() {
-				out.Field(i).Set(NormalizeNil(v.Field(i)))
+				out.Field(i).Set(normalizeNil(v.Field(i), true, keepFields))
 			}
 		}
 		if v.NumField() > 0 && !v.Type().Field(0).IsExported() {
 			out.Set(v)
 		}
 	case reflect.Slice:
-		if v.Type().Elem().Kind() == reflect.Uint8 {
+		if v.Type().Elem().Kind() == reflect.Uint8 || (v.IsNil() && atField && keepFields) {
 			out.Set(v)
 			return out
 		}
 		s := reflect.MakeSlice(v.Type(), 0, v.Len())
 		for i := 0; i < v.Len(); i++ {
-			s = reflect.Append(s, NormalizeNil(v.Index(i)))
+			s = reflect.Append(s, normalizeNil(v.Index(i), false, keepFields))
 		}
 		out.Set(s)
 	case reflect.Map:
+		if v.IsNil() && atField && keepFields {
+			out.Set(v)
+			return out
+		}
 		m := reflect.MakeMap(v.Type())
 		for _, k := range v.MapKeys() {
-			m.SetMapIndex(k, NormalizeNil(v.MapIndex(k)))
+			m.SetMapIndex(k, normalizeNil(v.MapIndex(k), false, keepFields))
 		}
 		out.Set(m)
 	default:
